@@ -71,6 +71,35 @@ fn main() {
             None => ok = false,
         }
     }
+    // helpers of their own that the extracted functions call: every other `fn name(` defined inside the Windows `mod os`
+    // whose name occurs (followed by an opening parenthesis) in what has been extracted so far -- transitively
+    if ok {
+        let win = src.find("#[cfg(windows)]\nmod os").map(|i| &src[i..]).unwrap_or("");
+        let mut done: Vec<String> = vec!["assemble_cmdline".into(), "append_quoted".into(), "format_env_block".into()];
+        loop {
+            let mut added = false;
+            let mut at = 0;
+            while let Some(k) = win[at..].find("fn ") {
+                let s0 = at + k + 3;
+                let name: String = win[s0..].chars().take_while(|c| c.is_alphanumeric() || *c == '_').collect();
+                at = s0;
+                if name.is_empty() || done.contains(&name) || !win[s0 + name.len()..].starts_with('(') && !win[s0 + name.len()..].starts_with('<') {
+                    continue;
+                }
+                if code.contains(&format!("{}(", name)) {
+                    if let Some(f) = extract_fn(win, &name) {
+                        code.push_str(&f);
+                        code.push_str("\n\n");
+                        done.push(name);
+                        added = true;
+                    }
+                }
+            }
+            if !added {
+                break;
+            }
+        }
+    }
     if !ok {
         code = String::new();
     }
